@@ -2,3 +2,6 @@ import ReplicatModel.Basic
 import ReplicatModel.Generated
 import ReplicatModel.Chunker
 import ReplicatModel.Clmul
+import ReplicatModel.Paging
+import ReplicatModel.Store
+import ReplicatModel.LocalFS
